@@ -45,7 +45,7 @@ var (
 	statRe  = regexp.MustCompile(`(\d+) states generated, (\d+) distinct states found`)
 	depthRe = regexp.MustCompile(`The depth of the complete state graph search is (\d+)`)
 	invRe   = regexp.MustCompile(`Invariant (\S+) is violated`)
-	propRe  = regexp.MustCompile(`(?:Temporal properties were violated|Action property (\S+) is violated|property (\S+) is violated)`)
+	propRe  = regexp.MustCompile(`(?:Temporal properties were violated|Temporal property (\S+) was violated|Action property (\S+) is violated|property (\S+) is violated)`)
 )
 
 const tlaJars = "/opt/veriftools/tla/tla2tools.jar:/opt/veriftools/tla/CommunityModules-deps.jar"
@@ -112,7 +112,7 @@ func RunTLC(dir string, o TLCOpts) (*TLCResult, error) {
 	if m := invRe.FindStringSubmatch(res.Out); m != nil {
 		res.Violated = m[1]
 	} else if m := propRe.FindStringSubmatch(res.Out); m != nil {
-		res.Violated = m[1] + m[2]
+		res.Violated = m[1] + m[2] + m[3]
 		if res.Violated == "" {
 			res.Violated = "temporal"
 		}
